@@ -7,8 +7,8 @@ One `tell` runs up to `limit + 1` attempts. An attempt (the closure passed to `T
     fails; otherwise the frame is on the wire.
 After `limit + 1` failed attempts the envelope goes to `HandleFailedRemotingEnvelop` (dead letter).
 The environment: the peer listens or not (`peerUp`), and may reset the established connection
-(`broken`). A connection reset is the only fault modelled; an orderly FIN close (where the first
-write after it is accepted by the kernel and lost) is outside the model. -/
+(`broken`): a reset (the next write fails) or an orderly close (the reader sees end-of-stream and
+marks the connection closed, so the next attempt fails before writing) — the same transition. -/
 namespace Vivid.SendLoop
 
 structure St where
